@@ -71,6 +71,25 @@ def literal_programs(tier):
         yield A.prog((("register", "q", BIG), ("map", "a", "q", lo, hi, st)), (A.gate("g", A.item("a", 0)),))
 
 
+PAIR_VALUES = (0, 1, -1, -2, 2, 2 ** 61 - 1, 2 ** 61, -(2 ** 61 - 1), 1.0, -1.0, -2.0, 0.0, -0.0, 0.5, -0.5, 1e-07, 2.0 ** 61, 10 ** 22, 1e22)
+
+
+def literal_pair_programs(tier):
+    """two textually similar statements in ONE program that differ in a single number (values whose
+    hashes or float/int forms coincide), in both orders, as gate argument, loop count and index"""
+    R = ("register", "q", 2)
+    for a, b in itertools.product(PAIR_VALUES, repeat=2):
+        if repr(a) == repr(b):
+            continue
+        yield A.prog((R,), (A.gate("g", A.item("q", 0), a), A.gate("g", A.item("q", 0), b)))
+        yield A.prog((R, ("let", "u", a), ("let", "w", b)), (A.gate("g", "u"), A.gate("g", "w")))
+        if isinstance(a, int) and isinstance(b, int) and a >= 0 and b >= 0:
+            yield A.prog((R,), (A.loop(a, A.seq(A.gate("g", A.item("q", 0)))), A.loop(b, A.seq(A.gate("g", A.item("q", 0))))))
+            yield A.prog((R,), (A.sub(a, A.gate("g", A.item("q", 0))), A.sub(b, A.gate("g", A.item("q", 0)))))
+            if a < 3 and b < 3:
+                yield A.prog((("register", "q", 3),), (A.gate("g", A.item("q", a)), A.gate("g", A.item("q", b))))
+
+
 def header_programs(tier):
     shapes1 = list(itertools.product((None, 1, "lo"), (None, 3, "hi"), (None, 2, "st")))
     shapes2 = list(itertools.product((None, 0, "z"), (None, 1, "one"), (None, 1, "one")))
@@ -94,9 +113,16 @@ def header_programs(tier):
 
 
 def small_enough(p):
+    """registers and alias bounds (literal or let-valued) small enough for the model to
+    materialise the cells"""
+    lets = {h[1]: h[2] for h in p[1] if h[0] == "let"}
     for h in p[1]:
+        if h[0] not in ("register", "map"):
+            continue
         for x in h[2:]:
-            if isinstance(x, int) and abs(x) > 64:
+            if isinstance(x, str):
+                x = lets.get(x, 0)
+            if isinstance(x, (int, float)) and abs(x) > 64:
                 return False
     return True
 
@@ -126,7 +152,7 @@ class C01(ProgramCheck):
     def cases(self, tier, shard):
         shard = tuple(shard)
         if shard[0] == "lit":
-            gen = itertools.islice(literal_programs(tier), shard[1], None, 8)
+            gen = itertools.islice(itertools.chain(literal_programs(tier), literal_pair_programs(tier)), shard[1], None, 8)
         elif shard[0] == "hdr":
             gen = itertools.islice(header_programs(tier), shard[1], None, 4)
         else:
